@@ -1144,6 +1144,11 @@ def check_ranges(ctx, res):
     run_targets(ctx, res, range_targets, "R5-range-term", 2, "R5: gen_biguint_range / gen_bigint_range return lbound + below(ubound - lbound) (below(ubound) for lbound = 0, lbound + below(|lbound|) for ubound = 0) and panic unless lbound < ubound")
 
 
+def prim_max(ty):
+    b = {"8": 8, "16": 16, "32": 32, "64": 64, "128": 128, "size": 64}.get(ty[1:], 64)
+    return 2 ** (b - 1) - 1 if ty.startswith("i") else 2 ** b - 1
+
+
 def o_shl(c):
     s, A = c.sm(1)
     k = c.init_val(2)
@@ -1171,12 +1176,28 @@ def o_shr(c):
         raise NeedCase(k)
     if kz:
         return -m
-    fits = [v for key, v in c.st.bools.items() if key.startswith("fits_u64(")]
-    if not fits:
-        raise Mismatch("the shift amount was never narrowed to u64 for the rounding decision")
-    if not fits[0]:
+    # the comparison may instead be made in the shift's own type, by narrowing trailing_zeros(|a|) to it: when that
+    # does not fit, trailing_zeros(|a|) > T::MAX >= k, so no one-bit is shifted out
+    zfits = [(key, v) for key, v in c.st.bools.items() if key.startswith("fits_") and "(tz(" in key]
+    for key, v in zfits:
+        if not v:
+            zt = key[5:key.index("(")]
+            kt = (c.body.trait_args[0] if c.body.trait_args else "").lstrip("&")
+            if kt in UNSIGNED | SIGNED and prim_max(zt) >= prim_max(kt):
+                return -m
+            return ("any",)
+    fits = [v for key, v in c.st.bools.items() if key.startswith("fits_u64(") and "(tz(" not in key]
+    if fits and not fits[0]:
         return -(m + 1)
+    # (no narrowing at all: the comparison was made in a type that holds both values - the interpreter does not follow
+    # value-changing casts)
     lt = [v for key, v in c.st.bools.items() if key.startswith("Lt(tz(") or key.startswith("Gt(")]
+    # the same comparison through PartialOrd/Ord on the (generic) amount type: a three-way outcome
+    if not lt:
+        lt += [True for (x, y) in c.st.lt if x.startswith("tz(") and not y.startswith("tz(")]
+        lt += [False for (x, y) in c.st.lt if y.startswith("tz(") and not x.startswith("tz(")]
+        if not lt and repr(k).startswith("tz("):
+            lt.append(False)  # the three-way comparison came out Equal (the amount was identified with the count)
     if not lt:
         raise Mismatch("trailing_zeros(|a|) was never compared with the shift amount")
     return -(m + (1 if lt[0] else 0))
